@@ -707,7 +707,12 @@ func fontKnobCases() []struct {
 		add("Encoding="+e, fontSpec{encLenIV: 4, top: "/Encoding " + e + " def\n"})
 	}
 	// seac with hostile component codes
-	for _, codes := range [][2]int32{{0, 0}, {65, 65}, {-1, 65}, {65, 256}, {2147483647, -2147483648}, {1000, 1000}} {
+	// (a composite may name itself as base or as accent, next to a component with a real outline)
+	pathGlyph := append(append(csNum(0), csNum(500)...), 13)
+	pathGlyph = append(append(append(pathGlyph, csNum(10)...), csNum(20)...), 21)
+	pathGlyph = append(append(append(pathGlyph, csNum(30)...), csNum(0)...), 5)
+	pathGlyph = append(append(append(pathGlyph, csNum(0)...), csNum(40)...), 5, 9, 14)
+	for _, codes := range [][2]int32{{0, 0}, {65, 65}, {-1, 65}, {65, 256}, {2147483647, -2147483648}, {1000, 1000}, {65, 66}, {66, 65}} {
 		cs := append(append(csNum(0), csNum(500)...), 13)
 		cs = append(cs, csNum(0)...)
 		cs = append(cs, csNum(10)...)
@@ -715,9 +720,10 @@ func fontKnobCases() []struct {
 		cs = append(cs, csNum(codes[0])...)
 		cs = append(cs, csNum(codes[1])...)
 		cs = append(cs, 12, 6)
-		for _, enc := range []string{"", "/Encoding [ 256 {/B} repeat ] def\n", "/Encoding [ 256 {/.notdef} repeat ] def\n", "/Encoding 5 def\n"} {
+		for _, enc := range []string{"", "/Encoding [ 256 {/B} repeat ] def\n", "/Encoding [ 256 {/.notdef} repeat ] def\n", "/Encoding 5 def\n",
+			"/Encoding [ 256 {/B} repeat ] dup 65 /C put def\n", "/Encoding [ 256 {/C} repeat ] dup 66 /B put def\n", "/Encoding [ 256 {/C} repeat ] dup 65 /D put dup 66 /B put def\n"} {
 			add(fmt.Sprintf("seac %d %d enc=%q", codes[0], codes[1], enc), fontSpec{encLenIV: 4, top: enc,
-				glyphs: map[string][]byte{".notdef": simpleGlyph, "A": simpleGlyph, "B": cs}, order: []string{".notdef", "A", "B"}})
+				glyphs: map[string][]byte{".notdef": simpleGlyph, "A": simpleGlyph, "B": cs, "C": pathGlyph, "D": cs}, order: []string{".notdef", "A", "B", "C", "D"}})
 		}
 	}
 	// the font directory filled by other means than definefont, with other things than fonts
@@ -821,6 +827,71 @@ func afmFamily(length int, budget time.Duration) mc.Family {
 }
 
 // ---------------------------------------------------------------------------
+// deep nesting: structures whose depth is bounded only by the length of the
+// input (or by the operation budget), handed to operators that walk them.
+
+func deepNestingFamily(tier string, budget time.Duration) mc.Family {
+	type shape struct {
+		name  string
+		build func(n int) string
+	}
+	rep := strings.Repeat
+	shapes := []shape{
+		{"{{{…}}} bind", func(n int) string { return rep("{", n) + rep("}", n) + " bind" }},
+		{"{{{…}}} exec", func(n int) string { return rep("{", n) + rep("}", n) + " exec" }},
+		{"{{{…}}} dup length pop /p exch def", func(n int) string { return rep("{", n) + rep("}", n) + " dup length pop /p exch def" }},
+		{"{ { { … 1 } } } bind exec", func(n int) string { return rep("{ ", n) + "1 " + rep("} ", n) + "bind exec" }},
+		{"{{{… left open", func(n int) string { return rep("{", n) }},
+		{"{{{…}}} closed once too often", func(n int) string { return rep("{", n) + rep("}", n+1) }},
+		{"[ [ [ … left open", func(n int) string { return rep("[ ", n) }},
+		{"<< << << … left open", func(n int) string { return rep("<< ", n) }},
+		{"built by a loop: {} n { [ exch ] cvx } repeat bind", func(n int) string { return fmt.Sprintf("{} %d { [ exch ] cvx } repeat bind", n) }},
+		{"built by a loop: [] n { [ exch ] } repeat dup length", func(n int) string { return fmt.Sprintf("[] %d { [ exch ] } repeat dup length", n) }},
+	}
+	depths := []int{99, 100, 101, 499, 500, 501, 502, 70000, 1000000, 8400000}
+	if tier == "thorough" {
+		depths = append(depths, 12000000)
+	}
+	through := []string{"interpreter, budget 1000", "interpreter, budget 3000000", "ReadCMap", "type1.Read"}
+	n := len(shapes) * len(depths) * len(through)
+	return mc.Family{
+		Name: "deep-nesting", Items: n, Budget: budget, HangSeconds: 120,
+		Rule: fmt.Sprintf("%d shapes (procedure literals nested n deep and then bound / executed / stored / left open / closed once too often; open array and dictionary marks; procedures and arrays nested by a loop) x n in %v x {interpreter with a budget of 1000 and of 3,000,000 operations, ReadCMap, type1.Read}: inputs of up to 2n+30 bytes; oracle as everywhere in C01 (returns within the watchdog, the process survives, memory cap); non-trivial = every case", len(shapes), depths),
+		Body: func(c *mc.Ctx, item int) mc.Verdict {
+			sh := shapes[item%len(shapes)]
+			d := depths[(item/len(shapes))%len(depths)]
+			how := item / len(shapes) / len(depths)
+			prog := sh.build(d)
+			var err error
+			switch how {
+			case 0, 1:
+				intp := postscript.NewInterpreter()
+				intp.MaxOps = 1000
+				if how == 1 {
+					intp.MaxOps = 3000000
+				}
+				err = intp.ExecuteString(prog)
+			case 2:
+				_, err = postscript.ReadCMap(strings.NewReader("%!PS-Adobe-3.0 Resource-CMap\n" + prog))
+			case 3:
+				_, err = type1.Read(strings.NewReader("%!PS-AdobeFont-1.0: T 1\n" + prog))
+			}
+			c.Step()
+			out := errClass(err)
+			v := mc.Pass(out, true)
+			if c.Render() {
+				v.Render = fmt.Sprintf("%s, n=%d, through %s → %s", sh.name, d, through[how], out)
+			}
+			return v
+		},
+		Describe: func(item int) string {
+			return fmt.Sprintf("%s, n=%d, through %s", shapes[item%len(shapes)].name, depths[(item/len(shapes))%len(depths)], through[item/len(shapes)/len(depths)])
+		},
+		CrashKey: func(item int) string { return "C01:crash:deep-nesting:" + shapes[item%len(shapes)].name },
+	}
+}
+
+// ---------------------------------------------------------------------------
 // CMap reader
 
 func cmapFamily(budget time.Duration) mc.Family {
@@ -903,7 +974,7 @@ func main() {
 				fanoutFamily(budget),
 				mc.Family{
 					Name: "font-knobs", Items: len(knobs), Budget: budget,
-					Rule: "type1.Read on generated fonts: /lenIV from 17 values (min int, -2^40, -1, 0..7, 65536, 2^31, 2^62, max int, real, string, name, boolean) x charstrings of 0..9 bytes; missing FontInfo/Private/CharStrings/FontType; every dictionary entry the reader looks at (9 top-level, 10 Private, 9 FontInfo) set to each of 14 wrongly typed values; odd Encoding arrays; seac with hostile component codes x 4 encodings; the font directory filled through put / defineresource / definefont / def with 20 kinds of non-font values; no font; two fonts; non-trivial = every case",
+					Rule: "type1.Read on generated fonts: /lenIV from 17 values (min int, -2^40, -1, 0..7, 65536, 2^31, 2^62, max int, real, string, name, boolean) x charstrings of 0..9 bytes; missing FontInfo/Private/CharStrings/FontType; every dictionary entry the reader looks at (9 top-level, 10 Private, 9 FontInfo) set to each of 14 wrongly typed values; odd Encoding arrays; seac with hostile component codes x 7 encodings (incl. composites that name themselves or each other as base or accent next to a glyph with an outline); the font directory filled through put / defineresource / definefont / def with 20 kinds of non-font values; no font; two fonts; non-trivial = every case",
 					Body: func(c *mc.Ctx, item int) mc.Verdict {
 						_, err := type1.Read(bytes.NewReader(knobs[item].data))
 						c.Step()
@@ -930,6 +1001,7 @@ func main() {
 					Rule: "type1.Read on PFB input: every value of a segment header's first two bytes x 4 declared lengths (0, 5, 2^31-1, 2^32-1) x 3 payloads x {first segment, second segment}; non-trivial = every case"},
 				afmFamily(afmLen, budget),
 				cmapFamily(budget),
+				deepNestingFamily(tier, budget),
 			)
 			return fams
 		},
